@@ -287,6 +287,28 @@ def index_kinds(ctx, rep, clause):
            'slice re-bases an interval Boundary b to max(0, b - start)', 'Boundary')
     expect(sl, 'new_end', atom(f'max0({fmt(padd(atom("interval.end"), atom("start"), -1))})'),
            'slice re-bases an interval Boundary b to max(0, b - start)', 'Boundary')
+    # which intervals are kept: the half-open ranges [s, e) and [start, stop) intersect
+    filt = None
+    for node in walk_own(sl.node):
+        if isinstance(node, ast.If) and 'interval.start' in norm_stmt(node.test) and 'interval.end' in norm_stmt(node.test):
+            filt = node
+    atoms = set()
+    if filt is not None:
+        parts = filt.test.values if isinstance(filt.test, ast.BoolOp) and isinstance(filt.test.op, ast.And) else [filt.test]
+        flip = {ast.Lt: '>', ast.Gt: '<', ast.LtE: '>=', ast.GtE: '<='}
+        sym = {ast.Lt: '<', ast.Gt: '>', ast.LtE: '<=', ast.GtE: '>='}
+        for p_ in parts:
+            if isinstance(p_, ast.Compare) and len(p_.ops) == 1 and type(p_.ops[0]) in sym:
+                l, r = norm_stmt(p_.left), norm_stmt(p_.comparators[0])
+                if l.startswith('interval.'):
+                    atoms.add((l, sym[type(p_.ops[0])], r))
+                elif r.startswith('interval.'):
+                    atoms.add((r, flip[type(p_.ops[0])], l))
+    ob(rep, 'KIND', sl.fq, 'slice keeps an interval iff [s, e) intersects [start, stop)',
+       atoms == {('interval.start', '<', 'stop'), ('interval.end', '>', 'start')}, 'interval.start < stop and '
+       'interval.end > start', f'interval filter is {sorted(atoms)}: an interval that only touches the slice at a '
+       f'boundary (e == start or s == stop) is carried into the piece as an empty interval with its modifications',
+       sl.loc(filt) if filt is not None else sl.loc(), clause)
     ns = _assigned(sl, 'new_sequence')
     ob(rep, 'KIND', sl.fq, 'slice cuts the residues with [start:stop]',
        bool(ns) and norm_stmt(ns[0].value) == 'self.sequence[start:stop]', 'same half-open range as the keys',
